@@ -62,6 +62,14 @@ def main(ctx):
                                 for size in (125, 124, 13):
                                     jobs.append({"sc": "ping", "role": role, "start": start, "I": I, "T": T,
                                                  "restart": restart, "npings": 2, "size": size})
+        # a chatty peer: data frames every 0.5 s for the whole run, every ping answered at once - the
+        # pings still leave at the configured interval
+        for role in ("server", "client"):
+            for I in (1, 2, 5):
+                for T in (0, 2):
+                    for restart in (True, False):
+                        jobs.append({"sc": "chatty", "role": role, "start": 0.0, "I": I, "T": T,
+                                     "restart": restart})
         # the silent peer has also stopped reading (unsent octets in the write buffer): only an
         # abort gets rid of such a connection
         for j in list(jobs):
@@ -83,7 +91,7 @@ def main(ctx):
               "close:responsive_ok", "drop:silent_dropped", "drop:responsive_ok",
               "ping:silent_dropped", "ping:responsive_ok", "ping:data_counts",
               "ping:data_does_not_count", "after_closed_checked", "pings_seen", "disabled_ok",
-              "stalled_peer_jobs", "ping:fragment_as_traffic", "proxy_jobs", "proxy_answers_at_once", "close_started_by_failing", "close_with_autoping", "ping_size_125", "ping:connection_ends_with_ping_outstanding", "ping:app_between_streamed_frames", "ping:app_closes_with_ping_outstanding",
+              "stalled_peer_jobs", "ping:chatty_peer_runs", "ping:fragment_as_traffic", "proxy_jobs", "proxy_answers_at_once", "close_started_by_failing", "close_with_autoping", "ping_size_125", "ping:connection_ends_with_ping_outstanding", "ping:app_between_streamed_frames", "ping:app_closes_with_ping_outstanding",
               "peerclose_echo"):
         ctx.require(n)
 
@@ -481,6 +489,38 @@ def job(a):
                         count("drop:responsive_ok")
                 else:
                     after(r, case)
+    elif sc == "chatty":
+        I, T, restart = a["I"], a["T"], a["restart"]
+        opts = {"autoPingInterval": I, "autoPingTimeout": T, "autoPingRestartOnAnyTraffic": restart,
+                "openHandshakeTimeout": 5}
+        for gap in (0.5, 0.75):
+            r = Run(role, opts, start)
+            r.handshake()
+            evals[0] += 1
+            case = {"chatty_gap": gap}
+            horizon = 4 * I + 3
+            seen = 0
+            next_data = gap
+            while r.now() < horizon and r.drop_time is None:
+                r.tick()
+                while seen < len(r.pings):
+                    r.feed_frame(10, r.pings[seen][1])
+                    seen += 1
+                if r.now() >= next_data - 1e-9:
+                    r.feed_frame(2, b"chat")
+                    next_data += gap
+            count("ping:chatty_peer_runs")
+            times = [p_[0] for p_ in r.pings]
+            if r.drop_time is not None:
+                bad("responsive-peer-dropped", "chatty peer (data every %ss, every ping answered) dropped at %s" % (
+                    gap, r.drop_time), case)
+            elif not times or times[0] > I + GRID + 1e-9:
+                bad("first-ping-late", "chatty peer (data every %ss): pings at %s (I=%s)" % (gap, times, I), case)
+            else:
+                gaps = [b_ - a_ for a_, b_ in zip(times, times[1:])]
+                if any(g > I + 1.0 + GRID + 1e-9 for g in gaps) or horizon - times[-1] > I + 1.0 + 2 * GRID:
+                    bad("pings-stopped", "chatty peer (data every %ss): pings at %s over %ss (I=%s)" % (
+                        gap, times, horizon, I), case)
     elif sc == "ping":
         import itertools
         I, T, restart, npings = a["I"], a["T"], a["restart"], a["npings"]
